@@ -197,5 +197,20 @@ theorem size_ofList (h : Heap α) (xs : List α) (cap : Nat) (z : α) :
   simp only [ofList]
   exact size_alloc h _
 
+/-- a write never changes the length of any backing array -/
+theorem length_arr_set (h : Heap α) (s : Slice) (i : Nat) (v : α) (b : Nat) :
+    ((h.set s i v).arr b).length = (h.arr b).length := by
+  unfold set
+  by_cases hi : i < s.len
+  · simp only [hi, if_true, arr, List.getElem?_modify]
+    cases h.arrays[b]? with
+    | none => rfl
+    | some xs =>
+      by_cases e : s.arr = b <;> simp [e]
+  · simp only [hi, if_false]
+
+theorem length_set (h : Heap α) (s : Slice) (i : Nat) (v : α) :
+    (h.set s i v).arrays.length = h.arrays.length := size_set h s i v
+
 end Heap
 end Biogo.Go
